@@ -338,6 +338,55 @@ fn conflict_case(t: &mut Tape, rec: &mut Rec) -> CaseResult {
         crate::ensure_prop!(both2.released == payload, "C18:conflicting-secrets-yield-wrong-plaintext", "explicit session key vs PKESK");
         rec.label("conflict:explicit-session-key-vs-pkesk-not-cross-checked");
     }
+    // conflicts among secrets of the same kind, in every order
+    let right_sk = a.plain_session_key().ok_or_else(|| f("C18:harness", "no session key"))?;
+    let wrong_sk2 = match a.enc {
+        Enc::V1(c) => PlainSessionKey::V3_4 { sym_alg: c, key: RawSessionKey::from(b.session_key()) },
+        _ => PlainSessionKey::V6 { key: RawSessionKey::from(b.session_key()) },
+    };
+    for (name, sks) in [("[right, wrong]", vec![right_sk.clone(), wrong_sk2.clone()]), ("[wrong, right]", vec![wrong_sk2.clone(), right_sk.clone()]), ("[right, right, wrong]", vec![right_sk.clone(), right_sk.clone(), wrong_sk2.clone()])] {
+        let r = open(&ba, Presented { keys: vec![], key_pws: vec![], msg_pws: vec![], session_keys: sks }, false, Consumer::ReadToEnd);
+        match &r.error {
+            Some(e) if e.contains("decrypt:") => {}
+            Some(e) => return fail("C18:conflicting-secrets-not-reported-by-cross-check", format!("explicit session keys {name}: error only at {e}")),
+            None => return fail("C18:conflicting-secrets-silently-resolved", format!("explicit session keys {name} with abort_early=false: decrypted {} bytes without reporting the conflict", r.released.len())),
+        }
+    }
+    // two PKESK packets (to two different keys) wrapping different session keys, both keys presented
+    let kb = if v2 { Kind::Ed25519V6B } else { Kind::Ed25519V4B };
+    let mut b2 = mk(sb, kb, b"pw-b");
+    b2.passwords = vec![];
+    let bb2 = b2.build(&payload).map_err(|e| f("C18:builder-error", e.to_string()))?;
+    let pb2 = wire::split_packets(&bb2).map_err(|e| f("C18:deframe", e))?;
+    if let Some(pkesk_b) = pb2.iter().find(|p| p.tag == 1) {
+        let zb = zoo::get(kb);
+        for (name, msg2, keys) in [
+            ("PKESK(A) PKESK(B)", [raw(&ba, pkesk_a), raw(&bb2, pkesk_b), raw(&ba, seipd_a)].concat(), vec![&z.secret, &zb.secret]),
+            ("PKESK(B) PKESK(A)", [raw(&bb2, pkesk_b), raw(&ba, pkesk_a), raw(&ba, seipd_a)].concat(), vec![&zb.secret, &z.secret]),
+        ] {
+            let r = open(&msg2, Presented { keys, key_pws: vec![Password::empty()], msg_pws: vec![], session_keys: vec![] }, false, Consumer::ReadToEnd);
+            match &r.error {
+                Some(e) if e.contains("decrypt:") => {}
+                Some(e) => return fail("C18:conflicting-secrets-not-reported-by-cross-check", format!("{name}: error only at {e}")),
+                None => return fail("C18:conflicting-secrets-silently-resolved", format!("{name} wrapping different session keys, both keys presented with abort_early=false: decrypted {} bytes", r.released.len())),
+            }
+        }
+    }
+    // two integrity-protected SKESK packets wrapping different session keys, both passwords presented
+    if v2 {
+        let skesk_a = pa.iter().find(|p| p.tag == 3).unwrap();
+        for (name, msg3, pws) in [
+            ("SKESK(A) SKESK(B)", [raw(&ba, skesk_a), raw(&bb, skesk_b), raw(&ba, seipd_a)].concat(), vec![Password::from("pw-a"), Password::from("pw-b")]),
+            ("SKESK(B) SKESK(A)", [raw(&bb, skesk_b), raw(&ba, skesk_a), raw(&ba, seipd_a)].concat(), vec![Password::from("pw-b"), Password::from("pw-a")]),
+        ] {
+            let r = open(&msg3, Presented { keys: vec![], key_pws: vec![], msg_pws: pws, session_keys: vec![] }, false, Consumer::ReadToEnd);
+            match &r.error {
+                Some(e) if e.contains("decrypt:") => {}
+                Some(e) => return fail("C18:conflicting-secrets-not-reported-by-cross-check", format!("{name}: error only at {e}")),
+                None => return fail("C18:conflicting-secrets-silently-resolved", format!("{name} wrapping different session keys, both passwords presented with abort_early=false: decrypted {} bytes", r.released.len())),
+            }
+        }
+    }
     // consistent case: RingResult marks the used secrets Ok
     let ok = open(&ba, Presented { keys: vec![&z.secret], key_pws: vec![Password::empty()], msg_pws: vec![Password::from("pw-a")], session_keys: vec![] }, false, Consumer::ReadToEnd);
     if ok.error.is_some() || ok.released != payload {
@@ -351,7 +400,7 @@ fn conflict_case(t: &mut Tape, rec: &mut Rec) -> CaseResult {
 }
 
 pub fn run(ctx: &Ctx) {
-    ctx.set_rule("messages built by rPGP to 1..4 public-key recipients (all encryption algorithms, PKESK v3 with SEIPDv1 / v6 with SEIPDv2, addressed or anonymous) and 0..3 passwords (S2K kinds); presented secrets: each intended key (locked or unlocked, wrong key passwords first) alone or at every position among 0..3 unrelated keys (same-algorithm decoys preferred), each password alone or (SKESK v6) among unrelated passwords; negatives: only non-recipient keys, only wrong passwords (incl. one bit off), wrong session key, session key of the wrong kind/cipher; cross-check: spliced messages whose ESKs wrap different session keys with abort_early=false; oracle: intended secret => exactly the plaintext; wrong material => error and zero bytes released; conflict => error from the cross-check; non-trivial = every case; distinct = (recipient-set shape, presented shape, abort flag)");
+    ctx.set_rule("messages built by rPGP to 1..4 public-key recipients (all encryption algorithms, PKESK v3 with SEIPDv1 / v6 with SEIPDv2, addressed or anonymous) and 0..3 passwords (S2K kinds); presented secrets: each intended key (locked or unlocked, wrong key passwords first) alone or at every position among 0..3 unrelated keys (same-algorithm decoys preferred), each password alone or (SKESK v6) among unrelated passwords; negatives: only non-recipient keys, only wrong passwords (incl. one bit off), wrong session key, session key of the wrong kind/cipher; cross-check (abort_early=false): spliced messages whose PKESK and SKESK, two PKESKs, or two SKESK v6 wrap different session keys, and explicit session keys [right, wrong] / [wrong, right] / [right, right, wrong]; oracle: intended secret => exactly the plaintext; wrong material => error and zero bytes released; conflict => error from the cross-check; non-trivial = every case; distinct = (recipient-set shape, presented shape, abort flag)");
     ctx.assume("unrelated passwords alongside the right one are only required to be harmless for SKESK v6 (the statement says integrity-protected password packets)");
     zoo::warm(zoo::ALL);
     let cheap = [Kind::EdLegacyV4, Kind::Ed25519V4, Kind::Ed25519V6, Kind::P256V4];
